@@ -4,7 +4,7 @@
 use crate::verif_exec::{block_on, create_core, guarded, open_core, Contract, Rng, SharedDisk};
 
 #[derive(Debug, Clone)]
-pub enum Step { Append(Vec<usize>), Clear(u64, u64), Reopen }
+pub enum Step { Append(Vec<usize>), Clear(u64, u64), Reopen, ReadOnly }
 
 fn block_bytes(index: usize, size: usize) -> Vec<u8> { (0..size).map(|k| (index * 31 + k * 7 + 1) as u8).collect() }
 
@@ -16,6 +16,7 @@ pub fn enc(steps: &[Step]) -> String {
         }
         Step::Clear(a, b) => format!("c{},{}", a, b),
         Step::Reopen => "r".to_string(),
+        Step::ReadOnly => "m".to_string(),
     }).collect::<Vec<_>>().join(";")
 }
 pub fn dec(s: &str) -> Vec<Step> {
@@ -27,6 +28,7 @@ pub fn dec(s: &str) -> Vec<Step> {
                 else { Step::Append(rest.split(',').filter(|x| !x.is_empty()).map(|x| x.parse().unwrap()).collect()) }
             }
             "c" => { let f: Vec<&str> = rest.split(',').collect(); Step::Clear(f[0].parse().unwrap(), f[1].parse().unwrap()) }
+            "m" => Step::ReadOnly,
             _ => Step::Reopen,
         }
     }).collect()
@@ -39,13 +41,16 @@ pub fn check(steps: &[Step], probe_all: bool) -> Option<String> {
         let mut core = match create_core(&disk) { Ok(c) => c, Err(e) => return Some(format!("create failed: {e}")) };
         let mut model: Vec<Option<Vec<u8>>> = Vec::new();
         let mut total: u64 = 0;
+        let mut read_only = false;
         for (n, st) in steps.iter().enumerate() {
             match st {
                 Step::Append(sizes) => {
                     let blocks: Vec<Vec<u8>> = sizes.iter().enumerate().map(|(k, s)| block_bytes(model.len() + k, *s)).collect();
                     let refs: Vec<&[u8]> = blocks.iter().map(|b| b.as_slice()).collect();
                     match block_on(core.append_batch(&refs)) {
+                        Err(crate::HypercoreError::NotWritable) if read_only => {}   // after make_read_only appends are refused and change nothing
                         Err(e) => return Some(format!("step {n}: append failed: {e}")),
+                        Ok(_) if read_only => return Some(format!("step {n}: append accepted by a core made read-only")),
                         Ok(out) => {
                             for b in blocks { total += b.len() as u64; model.push(Some(b)); }
                             if out.length != model.len() as u64 || out.byte_length != total {
@@ -61,6 +66,10 @@ pub fn check(steps: &[Step], probe_all: bool) -> Option<String> {
                 Step::Reopen => {
                     drop(core);
                     core = match open_core(&disk) { Ok(c) => c, Err(e) => return Some(format!("step {n}: reopen failed: {e}")) };
+                }
+                Step::ReadOnly => {
+                    match block_on(core.make_read_only()) { Ok(changed) => { if changed == read_only { return Some(format!("step {n}: make_read_only returned {changed}")); } read_only = true; }
+                        Err(e) => return Some(format!("step {n}: make_read_only failed: {e}")) }
                 }
             }
             // observations
@@ -99,12 +108,13 @@ fn gen(rng: &mut Rng, max_steps: usize, big: bool) -> Vec<Step> {
     let n = 1 + rng.below(max_steps as u64) as usize;
     let mut steps = Vec::new();
     let mut len: u64 = 0;
+    let mut ro = false;
     for _ in 0..n {
         match rng.below(10) {
             0..=4 => {
                 let k = if big && rng.chance(1, 4) { 9000 + rng.below(30000) as usize } else { rng.below(5) as usize };
                 let sizes: Vec<usize> = (0..k).map(|_| if big { 1 } else { rng.pick(&[0usize, 1, 2, 3, 17, 300]) }).collect();
-                len += k as u64;
+                if !ro { len += k as u64; }
                 steps.push(Step::Append(sizes));
             }
             5..=6 if len > 0 => {
@@ -112,6 +122,7 @@ fn gen(rng: &mut Rng, max_steps: usize, big: bool) -> Vec<Step> {
                 let b = a + 1 + rng.below(len - a + 2);
                 steps.push(Step::Clear(a, b));
             }
+            7 if !big && rng.chance(1, 3) => { ro = true; steps.push(Step::ReadOnly) }
             _ => steps.push(Step::Reopen),
         }
     }
@@ -120,7 +131,7 @@ fn gen(rng: &mut Rng, max_steps: usize, big: bool) -> Vec<Step> {
 
 fn search_small(rng: &mut Rng, budget: usize) -> Option<String> {
     // fixed histories first (the ones recorded in DESIGN §5), then random ones
-    let fixed = ["a3;a3;c0,1;r", "a1;a1;a1;a1;a1;r;a1;r", "a1,1,1,1,1;c1,2;r", "a2;r;a2;r;a2;r", "a0;a0,0;r;a1", "a1,1,1;c0,3;r;a1;r", "a5;a5;a0;a0;c1,2;c3,4;a1;r", "a5;a5;a0;a5;c3,4;c1,2;c3,4;r;a2", "a3;a0;c0,1;c1,2;c0,2;a0;c2,3"];
+    let fixed = ["a3;a3;c0,1;r", "a1;a1;a1;a1;a1;r;a1;r", "a1,1,1,1,1;c1,2;r", "a2;r;a2;r;a2;r", "a0;a0,0;r;a1", "a1,1,1;c0,3;r;a1;r", "a5;a5;a0;a0;c1,2;c3,4;a1;r", "a5;a5;a0;a5;c3,4;c1,2;c3,4;r;a2", "a3;a0;c0,1;c1,2;c0,2;a0;c2,3", "a1,1,1,1;m;c1,2;r", "a1,2;m;c0,1;a1;r;c1,2;r", "a1,1,1;a1;m;r;c2,3;r"];
     for f in fixed { let st = dec(f); if let Some(m) = check(&st, true) { return Some(format!("{{\"history\":\"{}\",\"why\":\"{}\"}}|{}", f, m, f)); } }
     for _ in 0..budget {
         let st = gen(rng, 9, false);
@@ -145,7 +156,7 @@ fn rerun(input: &str) -> Option<String> {
 
 pub fn contracts() -> Vec<Contract> {
     vec![
-        Contract { name: "e2e.list_model", covers: &["Hypercore::append_batch", "Hypercore::clear", "Hypercore::get", "Hypercore::has", "Hypercore::info",
+        Contract { name: "e2e.list_model", covers: &["Oplog::flush", "Hypercore::make_read_only", "MerkleTree::truncate", "MerkleTree::open", "Hypercore::append_batch", "Hypercore::clear", "Hypercore::get", "Hypercore::has", "Hypercore::info",
             "Hypercore::new", "Oplog::open", "Entry::decode", "update_contiguous_length", "Oplog::append_entries", "Oplog::flush"],
             search: search_small, rerun },
         Contract { name: "e2e.list_model_pages", covers: &["DynamicBitfield::open", "FixedBitfield::from_data", "DynamicBitfield::flush"], search: search_big, rerun },
